@@ -66,6 +66,10 @@ impl TraceOut {
         self.events += 1;
     }
 
+    pub fn dir(&self) -> PathBuf {
+        self.dir.clone()
+    }
+
     pub fn finish(mut self) -> Value {
         for w in self.shards.iter_mut() {
             w.flush().unwrap();
